@@ -494,6 +494,27 @@ func actHeapDecode(e *Env, a J) J {
 	if err == nil {
 		h.dmsg = m
 		o["msg"] = projMsg(m)
+		// the caller appends to octet strings it decoded (Ni | Nr from the decoded nonce ...): its own slices by now
+		for _, p := range m.Payloads {
+			switch x := p.(type) {
+			case *message.Nonce:
+				_ = append(x.NonceData, 0xAA, 0xBB, 0xCC, 0xDD)
+			case *message.KeyExchange:
+				_ = append(x.KeyExchangeData, 0xAA, 0xBB)
+			case *message.Notification:
+				_ = append(x.NotificationData, 0xAA)
+				_ = append(x.SPI, 0xAB)
+			case *message.VendorID:
+				_ = append(x.VendorIDData, 0xAC)
+			case *message.IdentificationInitiator:
+				_ = append(x.IDData, 0xAD)
+			case *message.Authentication:
+				_ = append(x.AuthenticationData, 0xAE)
+			case *message.Certificate:
+				_ = append(x.CertificateData, 0xAF)
+			}
+		}
+		o["insame"] = h.inSame()
 	}
 	return o
 }
